@@ -1,4 +1,5 @@
 import GnarkVerif.Proofs.ScalarMulGen
+import GnarkVerif.Proofs.ShamirGen
 import GnarkVerif.Props.C03
 /-
 C03_loop_gen — tie T for the scalar-multiplication LOOPS.
@@ -152,5 +153,69 @@ theorem C03loop_variants_agree (dbl : G → G) (hdbl : ∀ x, dbl x = x + x) (u 
   rw [C03loop_mulWindowed_smul dbl hdbl, C03loop_te_smul dbl hdbl]
 
 end Group
+
+/-! ## Straus–Shamir loops: `JointScalarMultiplication` (G1Jac of 9 packages) and `mulGLV` (16 groups)  — PARTIAL
+
+Subject: `Gen/Imp/Joint_<curve>_G1.lean`, `Gen/Imp/Glv_<curve>_G{1,2}.lean`, regenerated on every run (whole functions: `FromAffine`, sign
+folding, the 15-entry table, `SetBigInt(…).Bits()`, `maxBit`, `hiWordIndex` with its clamp to `fr.Limbs - 1`, the word loop, the 32 joint
+windows, `table[s-1]`); `Gen/Imp/JointAll.lean` / `GlvAll.lean` prove every member equal to the bn254 G1 term (stark-curve's
+`JointScalarMultiplication` takes Jacobian points — another signature — and is not in the family; it has no `mulGLV`).
+Further PARAMETERS: `fromAffine : A → G` (`FromAffine`), `phi`, `split = ecc.SplitScalar(·, &glvBasis)`, `limbs = fr.Limbs`,
+`frBits k = x.SetBigInt(&k).Bits()` (words of k mod r; SetBigInt overwrites its receiver), `elBitLen = (*fr.Element).BitLen` on raw words.
+The local `s := b2<<2 | b1` that shadows the parameter / the array `s` is renamed by the translator (`s_1`; all identifiers bound to the
+same Go object are renamed together).
+
+PROVED here (`_partial`): the LOOPS of the translated text equal the model's — one joint window = `shamirStep` (table lookup in uint64
+arithmetic included), the 32 windows of a word pair = `shamirWord`, the word loop from word n-1 down to 0 = the fold of `shamirWord`
+the model's `shamirLoop` is made of — for every table of the form `table15 t0 t3`, every dictionary with `dbl x = add x x`.
+MISSING for the full statement `JointScalarMultiplication = jointScalarMulC` / `mulGLV = Model.mulGLV`: the prologue (the 26 table
+updates evaluate to `table15 (signPt s₁ P₁) (signPt s₂ P₂)`; `hiWordIndex` in `Int` = `clampHi limbs (hiWordIndex …)`; `frBits` words =
+`limb (|s| mod r) i` for i < limbs) — straightforward but not finished in the time available. The model of the text as written
+(`jointScalarMulC`, with the clamp) and its correctness theorem `C03_jointScalarMulC` are in Model/ScalarMul.lean / Props/C03.lean. -/
+
+section
+variable {G A : Type} (add : G → G → G) (dbl neg : G → G) (zero uninit : G) (fromAffine : A → G) (phi : G → G) (split : ℤ → ℤ × ℤ)
+  (limbs : ℤ) (frBits : ℤ → List ℕ) (elBitLen : List ℕ → ℤ)
+
+/-- `JointScalarMultiplication`, inner loop: the 32 joint windows of word `i` = `shamirWord` of the model -/
+theorem C03loop_joint_word_partial (hdbl : ∀ x, dbl x = add x x) (t0 t3 res : G) (s : List (List ℕ)) (i : ℤ) :
+    (Joint_bn254_G1.JointScalarMultiplication.loop2 add dbl neg zero uninit fromAffine phi split limbs frBits elBitLen
+      (table15 ⟨add, neg, zero⟩ t0 t3) s i ((32 : ℤ) - 0).toNat res (shl64 (uintOfInt 3) 62) 0).1 =
+    shamirWord ⟨add, neg, zero⟩ (table15 ⟨add, neg, zero⟩ t0 t3)
+      (arrGet (arrGet s 0 (List.replicate limbs.toNat 0)) i.toNat 0) (arrGet (arrGet s 1 (List.replicate limbs.toNat 0)) i.toNat 0) res :=
+  joint_word add dbl neg zero uninit fromAffine phi split limbs frBits elBitLen hdbl t0 t3 res s i
+
+/-- `JointScalarMultiplication`, word loop: words n-1, …, 0 = the fold of `shamirWord` (the shape of the model's `shamirLoop`) -/
+theorem C03loop_joint_loop_partial (hdbl : ∀ x, dbl x = add x x) (t0 t3 : G) (s : List (List ℕ)) (n : ℕ) (res : G) :
+    (Joint_bn254_G1.JointScalarMultiplication.loop1 add dbl neg zero uninit fromAffine phi split limbs frBits elBitLen
+      (table15 ⟨add, neg, zero⟩ t0 t3) s n res ((n : ℤ) - 1)).1 =
+    (List.range n).reverse.foldl (fun (r : G) (k : ℕ) => shamirWord ⟨add, neg, zero⟩ (table15 ⟨add, neg, zero⟩ t0 t3)
+      (arrGet (arrGet s 0 (List.replicate limbs.toNat 0)) k 0) (arrGet (arrGet s 1 (List.replicate limbs.toNat 0)) k 0) r) res :=
+  joint_loop add dbl neg zero uninit fromAffine phi split limbs frBits elBitLen hdbl t0 t3 s n res
+
+/-- `mulGLV`, inner loop -/
+theorem C03loop_glv_word_partial (hdbl : ∀ x, dbl x = add x x) (t0 t3 res : G) (k1 k2 : List ℕ) (i : ℤ) :
+    (Glv_bn254_G1.mulGLV.loop2 add dbl neg zero uninit fromAffine phi split limbs frBits elBitLen
+      (table15 ⟨add, neg, zero⟩ t0 t3) k1 k2 i ((32 : ℤ) - 0).toNat res (shl64 (uintOfInt 3) 62) 0).1 =
+    shamirWord ⟨add, neg, zero⟩ (table15 ⟨add, neg, zero⟩ t0 t3) (arrGet k1 i.toNat 0) (arrGet k2 i.toNat 0) res :=
+  glv_word add dbl neg zero uninit fromAffine phi split limbs frBits elBitLen hdbl t0 t3 res k1 k2 i
+
+/-- `mulGLV`, word loop -/
+theorem C03loop_glv_loop_partial (hdbl : ∀ x, dbl x = add x x) (t0 t3 : G) (k1 k2 : List ℕ) (n : ℕ) (res : G) :
+    (Glv_bn254_G1.mulGLV.loop1 add dbl neg zero uninit fromAffine phi split limbs frBits elBitLen
+      (table15 ⟨add, neg, zero⟩ t0 t3) k1 k2 n res ((n : ℤ) - 1)).1 =
+    (List.range n).reverse.foldl (fun (r : G) (k : ℕ) => shamirWord ⟨add, neg, zero⟩ (table15 ⟨add, neg, zero⟩ t0 t3)
+      (arrGet k1 k 0) (arrGet k2 k 0) r) res :=
+  glv_loop add dbl neg zero uninit fromAffine phi split limbs frBits elBitLen hdbl t0 t3 k1 k2 n res
+
+/-- every member of the two families is the bn254 G1 term (so the loop theorems are about all of them) -/
+theorem C03loop_shamir_all_packages :
+    (∀ e ∈ JointAll.all_JointScalarMultiplication, @e.2 = @Joint_bn254_G1.JointScalarMultiplication) ∧
+    (∀ e ∈ GlvAll.all_mulGLV, @e.2 = @Glv_bn254_G1.mulGLV) :=
+  ⟨JointAll.all_JointScalarMultiplication_same, GlvAll.all_mulGLV_same⟩
+
+example : JointAll.all_JointScalarMultiplication.length = 9 ∧ GlvAll.all_mulGLV.length = 16 := ⟨rfl, rfl⟩
+example : ∀ x : ℤ, (fun x => 2 * x) x = x + x := fun x => by ring
+end
 
 end GV.ScalarMulGen
